@@ -84,6 +84,35 @@ def run(tier, rng, C):
             cases.append({'id': cid, 'line': V.stack_line(cid, 'value', layers), 'show': 'chain of %d %s references' % (ln - 1, style),
                           'nontrivial': True, 'cyclic': False, 'nrefs': ln - 1, 'chain': ln - 1})
 
+    # the chain of references is a chain of *looked-up paths*; the key a value is stored under is irrelevant:
+    # (a) keys that contain a colon and read like the path they reference, (b) values rendered against a
+    # foreign root (Value::rendered(&root)) whose own keys equal the paths they reference
+    for i in range(40 if tier == 'quick' else 600):
+        leaf = rng.choice([I(3), S('v1.2'), B(True), ('l', [I(1)]), M(('z', I(0)))])
+        k1, k2 = rng.choice(['image', 'a', 'cluster']), rng.choice(['tag', 'b', 'name'])
+        es = [(S(k1), M((k2, leaf), ('other', S('o')))),
+              (S('%s:%s' % (k1, k2)), S('${%s:%s}' % (k1, k2)))]
+        if i % 2:
+            es.append((S('wrap'), M(('%s:%s' % (k1, k2), S('pre-${%s:other}' % k1)), ('%s:other' % k1, S('${%s:other}' % k1)))))
+        rng.shuffle(es)
+        layers = [('m', es)]
+        cid = C.case_id('ck', i)
+        cases.append({'id': cid, 'line': V.stack_line(cid, 'value', layers), 'show': V.stack_show(layers),
+                      'nontrivial': True, 'cyclic': False, 'nrefs': 3, 'chain': 1})
+    for i in range(40 if tier == 'quick' else 600):
+        leaf = rng.choice([I(3), S('n1'), B(False), ('l', [S('x')]), M(('z', I(0)))])
+        k1, k2 = rng.choice(['name', 'cluster', 'a']), rng.choice(['name', 'env', 'b'])
+        if i % 2:
+            root = [('m', [(S(k1), M((k2, leaf)))])]
+            val = [('m', [(S(k1), M((k2, S('${%s:%s}' % (k1, k2)))))])]
+        else:
+            root = [('m', [(S(k1), leaf), (S('alias'), S('${%s}' % k1))])]
+            val = [('m', [(S(k1), S('${%s}' % k1)), (S('via'), S('${alias}')), (S('alias'), S('${alias}'))])]
+        cid = C.case_id('fr', i)
+        line = '%s value3 %d %s %d %s' % (cid, len(root), ' '.join(enc(l) for l in root), len(val), ' '.join(enc(l) for l in val))
+        cases.append({'id': cid, 'line': line, 'show': 'root ' + V.stack_show(root) + ' ; value rendered against it: ' + V.stack_show(val),
+                      'nontrivial': True, 'cyclic': False, 'nrefs': 3, 'chain': 2})
+
     def oracle(cases, mobs, iobs):
         fails = []
         for c in cases:
@@ -109,6 +138,6 @@ def run(tier, rng, C):
         return fails
     rule = ('%d reference graphs over 2-8 keys, one third with a cycle inserted through a whole value / embedded / list element / '
             'mapping value / layer placement; sharing cases (one reference used 2-20 times, diamonds); chains of 1..68 (whole-value, embedded, list, member, fully indirect, mixed links) '
-            'whole-value references around the limit of 64; oracle: cyclic -> error (never a value, never a panic), acyclic -> '
+            'whole-value references around the limit of 64; keys containing a colon that read like the path they reference; values rendered against a foreign root whose keys equal the referenced paths; oracle: cyclic -> error (never a value, never a panic), acyclic -> '
             'never a loop error, depth error only beyond 64; model/impl comparison on all' % n)
     return C.standard_run(cases, rule, key_fn=lambda c, m, i, r: 'model-impl-differ', extra_oracle=oracle)
